@@ -371,9 +371,13 @@ def run_verus(unit: VerusUnit, obs_by_name, workdir, rlimit=None, timeout=600):
             ob.status, ob.detail, ob.seconds = "undecided", "verus front-end error (unsupported construct / extraction drift)", dt
             ob.raw = err[-3000:]
         return res
+    decided_here = set()
     for fn, on in unit.functions.items():
         ob = obs_by_name[on]
         ob.seconds = dt / max(1, len(unit.functions))
+        if on in decided_here and ob.status in ("violated", "undecided") and fn not in failed:
+            continue            # several functions carry one obligation: a failing one is not overwritten by a passing one
+        decided_here.add(on)
         if fn in failed:
             msgs = failed[fn]
             if all("rlimit" in m or "resource limit" in m for m in msgs):
